@@ -1,6 +1,7 @@
 package kdir
 
 import (
+	"github.com/klev-dev/klevdb/pkg/vhook"
 	"os"
 	"path/filepath"
 )
@@ -17,6 +18,11 @@ func Sync(dir string) (retErr error) {
 	defer func() {
 		if err := f.Close(); retErr == nil {
 			retErr = err
+		}
+	}()
+	defer func() {
+		if retErr == nil {
+			vhook.FS("syncdir", dir, 0)
 		}
 	}()
 	return f.Sync()
